@@ -1,2 +1,6 @@
 import BB.Model.Cleaner
 import BB.Model.Buffer
+import BB.Conform.Generic
+import BB.Proofs.PubSubHist
+import BB.Model.CtxBuild
+import BB.Proofs.CtxBuild
